@@ -988,6 +988,8 @@ class Exec(object):
         v = self.ev(p, e.args[0]); cls = e.args[1]
         names = [c.id for c in cls.elts] if isinstance(cls, ast.Tuple) else [cls.id]
         if v.t == REGEXP: return SV(BOOL, Or([RX_TEST[n](v.z) for n in names]))
+        if v.t == ATOM and names == ['Variable']: return SV(BOOL, T.vtag(v.z))               # grammar symbols: assumption A-tags
+        if v.t == ATOM and names == ['Terminal']: return SV(BOOL, Not(T.vtag(v.z)))
         raise Unsupported('isinstance on %s' % v.t)
 
     def b_max(self, p, e):
